@@ -9,6 +9,7 @@ SPEC = dict(
         dict(name="xmllayer", asan=False, driver="qxdriver_c01"),
         dict(name="scalars", asan=False, driver="qxdriver_c01"),
         dict(name="codec", asan=False, driver="qxdriver_c01", reset_prefix="codec-reset", args=["--mode", "c01"]),
+        dict(name="parsers", asan="lib", args=["--mode", "c01"], timeout=3000),
     ],
     rule="three tiers. A (XML text layer): adversarial/random strings and trees written with the real QXmlStreamWriter and qxmpp helpers, "
          "read with QDomDocument, compared byte-exact / as canonical trees with the Lean render/parse. B (typed scalars): integers at and "
